@@ -7,11 +7,14 @@
 
    FULL statement of the property (kept visible): for EVERY agreeing state, operation and failure point, a change that
    fails leaves the state Equiv to the one before, and every settled change ends in an agreeing state.
-   It is FALSE of the faithful model and of the real code in three classes (KNOWN_FINDINGS, each reproduced through the
+   It is FALSE of the faithful model and of the real code in four classes (KNOWN_FINDINGS, each reproduced through the
    driver on every run); `excluded s o f` is exactly those classes and guards the theorems:
      - a connect OR disconnect task failing in its SECOND security setup call: repository and conns are rolled back, but
        the profile of the snap whose setup already ran is not regenerated (connect: slot snap's profile has a connection
        that does not exist; disconnect: plug snap's profile lacks a connection that exists)
+     - auto-connect (setup-profiles + auto-connect of the plug snap) from a state WITHOUT any active connection whose new
+       connections are undone because a later task fails: undoSetupProfiles regenerates the plug snap and the snaps
+       that have connections at that moment (none), so the slot snap keeps rules for the undone connections
      - undo of a connect that overwrote a hotplug-gone entry
      - undo of forgetting an inactive connection
    A fourth class (finding 8: a disconnect task failing in a security setup after repo.Disconnect left the repository
@@ -78,6 +81,21 @@ Theorem C22_forget_undo_refuted :
 Proof. exact forget_undo_refuted. Qed.
 Print Assumptions C22_forget_undo_refuted.
 
+(* auto-connect (the change [setup-profiles; auto-connect -> connect tasks with delayed-setup-profiles; setup-profiles]) is an
+   operation of run_change: C22_failed_change_restores and C22_settled_agree above cover it at every failure point (before,
+   any security setup call of either setup-profiles task, after), outside the class below. When it succeeds, every pair
+   without an entry gets an active auto connection and every existing entry - also undesired / hotplug-gone - is kept *)
+Theorem C22_autoconnect_success : forall s x, Agree s -> snd (run_change s OAutoConnect NoFail) = false /\
+  lookup (s_conns (fst (fst (run_change s OAutoConnect NoFail)))) x =
+    (if mem x univ then match lookup (s_conns s) x with Some c => Some c | None => Some auto_c end else lookup (s_conns s) x).
+Proof. exact autoconnect_success. Qed.
+Print Assumptions C22_autoconnect_success.
+
+Theorem C22_autoconnect_undo_refuted :
+  exists s o f, Agree s /\ snd (run_change s o f) = true /\ ~ Equiv (fst (fst (run_change s o f))) s.
+Proof. exact autoconnect_undo_refuted. Qed.
+Print Assumptions C22_autoconnect_undo_refuted.
+
 (* ------------------------------------------------------------------ non-vacuity *)
 Definition ex_s := mkSt [(0, mkC true false false false true); (1, mkC true false true false false)] [0] [0] [0].
 Example C22_ex_agree : Agree ex_s.
@@ -92,4 +110,12 @@ Example C22_ex_history :
   let h := [(ODisconnect 0 false false false, NoFail); (OConnect 0 false false, FailAfter); (OConnect 1 false false, NoFail)] in
   safe_history ex_s h /\ lookup (s_conns (run_history ex_s h)) 0 = Some (mkC true false true false false)
   /\ s_repo (run_history ex_s h) = [1].
+Proof. vm_compute. repeat split. Qed.
+(* a history with auto-connect: 0 is active, 1 remembered undesired; auto-connect adds 2 and 3 only; a second auto-connect that
+   fails after its main work changes nothing *)
+Example C22_ex_autoconnect :
+  let h := [(OAutoConnect, NoFail); (ODisconnect 2 false false false, NoFail); (OAutoConnect, FailAfter)] in
+  safe_history ex_s h /\ s_repo (run_history ex_s h) = [0; 3]
+  /\ lookup (s_conns (run_history ex_s h)) 2 = Some (mkC true false true false false)
+  /\ lookup (s_conns (run_history ex_s h)) 1 = Some (mkC true false true false false).
 Proof. vm_compute. repeat split. Qed.
